@@ -48,10 +48,10 @@ def _corpus_dir():
 
 
 def run(ctx, known, built):
-    from driver import sh, coq_values, parse_term
+    from driver import sh, coq_values, parse_term, REPO
     out = os.path.join(ctx.scratch, "c15")
     os.makedirs(out)
-    base = [ctx.harness, "c15", "--tier", ctx.tier, "--seed", str(ctx.seed), "--out", out, "--corpus", _corpus_dir()]
+    base = [ctx.harness, "c15", "--tier", ctx.tier, "--seed", str(ctx.seed), "--out", out, "--corpus", _corpus_dir(), "--repo", REPO]
     rc, o = sh(base, timeout=3000)
     if rc != 0:
         ctx.disagreements.append({"what": "harness c15 failed", "output": o[-2000:]})
